@@ -710,7 +710,7 @@ pub fn run(ctx: &Ctx) -> Outcome {
     }
     // two exhaustive profiles: wide alphabet / shallow, narrow alphabet / deeper
     let profiles: Vec<(&str, bool, usize, f64)> = if ctx.quick() {
-        vec![("wide-depth2", true, 2, 14.0), ("narrow-depth3", false, 3, 26.0)]
+        vec![("wide-depth2", true, 2, 12.0), ("narrow-depth3", false, 3, 22.0)]
     } else {
         vec![("wide-depth3", true, 3, 300.0), ("narrow-depth4", false, 4, 480.0)]
     };
